@@ -176,7 +176,8 @@ func (mc *XMCache) newXModelCacheIterator(bucket string, startKey []byte, endKey
 	// 意味着如果一个key在三个迭代器里面同时出现，优先级高的会覆盖优先级底的
 	multiIter := newMultiIterator(inputIter, backendIter)
 	multiIter = newMultiIterator(outputIter, multiIter)
-	return newContractIterator(multiIter), nil
+	// 本次执行中被删除的key(outputs里的删除标记)需要在合并之后剔除
+	return newContractIterator(newStripDelIterator(multiIter)), nil
 }
 
 // GetRWSets get read/write sets
